@@ -31,6 +31,8 @@ Calibration (unchanged tree)
 * ``List([a, b])`` means ``List(a, b)``: raw container literals inside containers are wrapped in DataNode.
 * Set elements must be hashable: a pair whose evaluation raises ``TypeError: unhashable`` in the
   python ``set()`` constructor is skipped (python refuses), counted in ``pairs_python_refuses``.
+* ``List(..).copy()`` / ``Dict(..).copy()`` raise (TypeError / AssertionError in ``Task.copy``): ``copy()`` pairs are
+  made for Task / Alias / DataNode nodes only; the statement does not speak about ``copy``.
 * Nodes are compared with ``==`` only against nodes: ``GraphNode.__eq__`` is type-strict, Alias/DataNode
   are unhashable (``__eq__`` without ``__hash__``); hash is read only where it exists.
 """
@@ -398,13 +400,12 @@ def d_lit_change(rng, t):
     if s is None:
         return None
     v = s[1]
-    near = {1: [True, 1.0, 2], True: [1, 1.0], 0: [False, 0.0], "a": [b"a", "b"], b"a": ["a"], 2: [2.0, 3], None: [0, "None"]}
+    near = {("int", 1): [True, 1.0, 2], ("int", 0): [False, 0.0], ("str", "a"): [b"a", "b"], ("bytes", b"a"): ["a"],
+            ("int", 2): [2.0, 3], ("NoneType", None): [0, "None"], ("bool", True): [1, 1.0], ("int", 7): [7.0, "7"]}
     try:
-        cand = near.get(v) if type(v) in (int, bool, str, bytes, type(None)) else None
+        cand = near.get((type(v).__name__, v))
     except TypeError:
         cand = None
-    if type(v) is bool:
-        cand = [int(v), float(v)]
     new = rng.choice(cand) if cand and rng.random() < 0.7 else rng.choice([x for x in SCALARS if not (type(x) is type(v) and x == v)])
     return _replace(t, p, ("lit", new))
 
@@ -475,8 +476,6 @@ DERIVATIONS = [
     ("literal-change", d_lit_change), ("re-nesting", d_renest), ("flatten", d_flatten), ("datanode-wrap", d_data_wrap),
     ("argument-drop", d_drop), ("argument-duplicate", d_dup),
 ]
-# derivations that keep the meaning: the derived node may or may not be equal, but its value is the same
-SAME_MEANING = {"dict-pair-order", "taskref-vs-alias", "datanode-wrap"}
 
 
 def _build(term, keyed, key):
@@ -546,7 +545,10 @@ def run_case(case, ctx):
     # guaranteed-meaning-preserving pairs
     pairs.append(("identical-rebuild", base, lambda: _build(base, keyed, "node")))
     pairs.append(("key-change", base, lambda: _build(base, keyed, "other-key")))
-    pairs.append(("copy", base, lambda: a.copy()))
+    from dask._task_spec import NestedContainer
+
+    if not isinstance(a, NestedContainer):      # NestedContainer.copy() raises (not the subject of C11)
+        pairs.append(("copy", base, lambda: a.copy()))
     pairs.append(("pickle", base, lambda: pickle.loads(pickle.dumps(a))))
     if rng.random() < 0.5:
         import cloudpickle
